@@ -90,129 +90,158 @@ def run(ctx):
         "src/writer/file_writer.c", "src/writer/row_group_writer.c", "src/reader/file_reader.c"))
     ctx.floor("C16 min/max stores and argument pairs", npol, 80)
     f = P.fn("carquet_reader_row_group_matches", RS)
-    decl = {}
+    # the two comparison results, found by what they are computed from: cmp(value, stats.<bound>)
+    roles = {}
     for n in f.body.walk():
-        if n.k == "DeclStmt":
-            for d in n.get("decls", []):
-                if "n" in d:
-                    decl[d["n"]] = d["d"]
-    if "cmp_min" not in decl or "cmp_max" not in decl:
-        # identify by definition: cmp(value, stats.min_value)
-        raise AnalysisBroken("row_group_matches: locals holding cmp(value,min)/cmp(value,max) not found")
-    # roles: every definition of cmp_min compares (value, min bound), cmp_max (value, max bound)
-    for var, bound in (("cmp_min", "min_value"), ("cmp_max", "max_value")):
-        defs = [a for a in f.body.walk() if is_assign(a) and a.c[0].strip().k == "DeclRefExpr"
-                and a.c[0].strip().name == var]
-        ctx.floor("row_group_matches definitions of %s" % var, len(defs), 1)
-        for a in defs:
-            call = a.c[1].strip_casts()
-            args = call.args() if call.k == "CallExpr" else []
-            ok = False
-            if args:
-                first = args[0].strip_casts()
-                ok = first.k == "DeclRefExpr" and first.name == "value" and \
-                    any(x.k == "MemberExpr" and x.name == bound for ar in args[1:] for x in ar.walk()) and \
-                    not any(x.k == "MemberExpr" and x.name in ("min_value", "max_value") and x.name != bound
-                            for ar in args for x in ar.walk())
-            ctx.ob("R5.roles", "cmp-roles|%s:%s|%s" % (RS, f.name, var), P.where(a),
-                   "%s = cmp(value, stats.%s) (probe first, its own bound second)" % (var, bound), ok, src(a)[:90])
-    sws = [s for s in find_switches(f) if s.c[-2].strip_casts().k == "DeclRefExpr" and s.c[-2].strip_casts().name == "op"]
-    if len(sws) != 1:
-        raise AnalysisBroken("row_group_matches: switch (op) not found")
-    table, order = switch_table(sws[0])
-    cells = 0
-    for opname, exists in EXISTS.items():
-        if opname not in table:
-            ctx.bad("R5.optable", "op-missing|%s:%s|%s" % (RS, f.name, opname), P.where(sws[0]),
-                    "operator %s has an arm in the pruning table" % opname)
+        tgt, rhs = None, None
+        if is_assign(n) and n.op == "=" and n.c[0].strip().k == "DeclRefExpr" and n.c[0].strip().get("dk") == "local":
+            tgt, rhs = (n.c[0].strip().get("d"), n.c[0].strip().name), n.c[1]
+        elif n.k == "DeclStmt":
+            for d, init in zip(n.get("decls", []), n.c):
+                if init is not None and "d" in d:
+                    call = init.strip_casts()
+                    if call.k == "CallExpr":
+                        tgt, rhs = (d["d"], d["n"]), init
+        if tgt is None:
             continue
-        stores = [a for s in table[opname] for a in s.walk()
-                  if is_assign(a) and a.op == "=" and "might_match" in src(a.c[0])]
+        call = rhs.strip_casts()
+        if call.k != "CallExpr" or not call.args():
+            continue
+        args = call.args()
+        first = args[0].strip_casts()
+        bounds = set(x.name for ar in args[1:] for x in ar.walk() if x.k == "MemberExpr" and x.name in ("min_value", "max_value"))
+        if len(bounds) != 1:
+            continue
+        bound = bounds.pop()
+        roles.setdefault(bound, []).append((tgt, n, first))
+    for bound in ("min_value", "max_value"):
+        defs = roles.get(bound, [])
+        if not defs:
+            raise AnalysisBroken("row_group_matches: no local computed as cmp(value, stats.%s)" % bound)
+        ids = set(t[0][0] for t in defs)
+        if len(ids) != 1:
+            raise AnalysisBroken("row_group_matches: cmp(value, stats.%s) is stored in several locals" % bound)
+        for (d, name), n, first in defs:
+            ctx.ob("R5.roles", "cmp-roles|%s:%s|%s" % (RS, f.name, bound), P.where(n),
+                   "`%s` = cmp(value, stats.%s) (probe first, its own bound second)" % (name, bound),
+                   first.k == "DeclRefExpr" and first.get("dk") == "param" and first.name == "value", src(n)[:90])
+    dmin, dmax = roles["min_value"][0][0][0], roles["max_value"][0][0][0]
+    # operator table by abstract execution: the two comparison results are forced to each feasible sign
+    # pair, everything else (statistics, comparator) is unknown; a group may only be reported as
+    # not matching on a path when no x in [min,max] satisfies `x op value`
+    from ..rules import sem
+    ops = P.enum("carquet_compare_op")
+    pn = [p_["n"] for p_ in f.params]
+    if "op" not in pn or "might_match" not in pn:
+        raise AnalysisBroken("row_group_matches: parameters op / might_match not found")
+    cells = 0
+    unset = None
+    for opname, exists in EXISTS.items():
+        if opname not in ops:
+            raise AnalysisBroken("operator %s not in carquet_compare_op" % opname)
         for cname, (sa, sb) in CELLS.items():
             cells += 1
-            env = {decl["cmp_min"]: sa, decl["cmp_max"]: sb}
-            pruned = False
-            unknown = False
-            for st in stores:
-                val = st.c[1].cv
-                guards = false_store_guard(st)
-                active = True
-                for cond, inthen in guards:
-                    v = eval_cond(P, f, cond, env)
-                    if v is None:
-                        unknown = True
-                        break
-                    if bool(v) != inthen:
-                        active = False
-                        break
-                if unknown:
-                    break
-                if active:
-                    if val == 0:
-                        pruned = True
-                    elif val is None:
-                        v = eval_cond(P, f, st.c[1], env)
-                        if v is None:
-                            unknown = True
-                        elif v == 0:
-                            pruned = True
+            args = []
+            for p_ in f.params:
+                if p_["n"] == "op":
+                    args.append(ops[opname])
+                elif p_["n"] == "might_match":
+                    args.append(sem.Ptr("mm", 0, 1))
+                elif "*" in p_["t"]:
+                    args.append(sem.Ptr("p_" + p_["n"], 0, 1))
+                else:
+                    args.append(4 if "size" in p_["n"] else 0)
             key = "optable|%s:%s|%s|%s" % (RS, f.name, opname, cname)
-            if unknown:
-                ctx.inconclusive("R5.optable", key, P.where(sws[0]), "pruning condition not evaluable over the sign domain")
+            try:
+                paths = sem.run(P, f, args, single=False, forced={dmin: sa, dmax: sb}, max_forks=4096, budget=2000000,
+                                hooks={"carquet_reader_column_statistics": lambda ev, a, it: 0})
+            except sem.Inconclusive as ex:
+                ctx.inconclusive("R5.optable", key, P.where(f.body), "abstract execution of the pruning table", str(ex))
                 continue
+            finals = [heap.get(("mm", 0)) for ret, ev, heap in paths]
+            pruned = any(v == 0 for v in finals)
+            if any(v is None for v in finals) and unset is None:
+                unset = (opname, cname)
             must = exists(sa, sb)
-            ctx.ob("R5.optable", key, P.where(stores[0]) if stores else P.where(sws[0]),
+            ctx.ob("R5.optable", key, P.where(f.body),
                    "%s with %s: %s" % (opname, cname, "a matching x exists, the group must be kept" if must
                                        else "no x matches, pruning allowed"),
-                   not (pruned and must), "pruned=%s" % pruned)
+                   not (pruned and must), "some path reports no match (%d paths)" % len(paths) if pruned else "%d paths" % len(paths))
     ctx.floor("C16 operator table cells", cells, 36)
-
-    # ---- (2) default true and early exits
-    stores_true = [a for a in f.body.walk() if is_assign(a) and "might_match" in src(a.c[0]) and a.c[1].cv == 1]
-    stores_false = [a for a in f.body.walk() if is_assign(a) and "might_match" in src(a.c[0]) and a.c[1].cv != 1]
-    ok = bool(stores_true)
-    if ok:
-        for r in f.returns():
-            ok = ok and f.cfg.node_dominates(stores_true[0], r)
     ctx.ob("R6.default", "default-true|%s:%s" % (RS, f.name), P.where(f.body),
-           "*might_match = true is stored before every return", ok)
-    inside = all(any(a is sws[0] for a in s.ancestors()) for s in stores_false)
-    ctx.ob("R6.default", "false-only-in-table|%s:%s" % (RS, f.name), P.where(f.body),
-           "might_match is cleared only inside the operator table", inside and bool(stores_false))
-    # the has_min_max test and the status test dominate the table
+           "*might_match is assigned on every path (never left to the caller's initial value)", unset is None,
+           "unassigned on a path of %s / %s" % unset if unset else "")
+    # a failing statistics lookup means "might match"
+    try:
+        args = [sem.Ptr("mm", 0, 1) if p_["n"] == "might_match" else (sem.Ptr("p_" + p_["n"], 0, 1) if "*" in p_["t"] else 0)
+                for p_ in f.params]
+        paths = sem.run(P, f, args, single=False, max_forks=4096, budget=2000000,
+                        hooks={"carquet_reader_column_statistics": lambda ev, a, it: 7})
+        bad_err = [1 for ret, ev, heap in paths if heap.get(("mm", 0)) == 0]
+        ctx.ob("R6.default", "stats-error-match|%s:%s" % (RS, f.name), P.where(f.body),
+               "when the statistics lookup fails no path reports `no match`", not bad_err)
+    except sem.Inconclusive as ex:
+        ctx.inconclusive("R6.default", "stats-error-match|%s:%s" % (RS, f.name), P.where(f.body), "abstract execution", str(ex))
+    # the has_min_max test (with a return) dominates the comparisons: bounds are only read when present
     hm = [n for n in f.body.walk() if n.k == "IfStmt" and any(
         x.k == "MemberExpr" and x.name == "has_min_max" for x in [y for y in n.c if y is not None][0].walk())]
     okhm = False
     if hm:
         first = min((x for x in hm[0].walk() if x.i in f.cfg.where()), key=lambda x: x.i)
-        tgt = min((x for x in sws[0].walk() if x.i in f.cfg.where()), key=lambda x: x.i)
-        okhm = f.cfg.node_dominates(first, tgt) and any(r.k == "ReturnStmt" for r in [y for y in hm[0].c if y is not None][1].walk())
+        exits = any(r.k == "ReturnStmt" for r in [y for y in hm[0].c if y is not None][1].walk())
+        cmps = [n for b in ("min_value", "max_value") for (_, n, _) in roles[b]]
+        firsts = [min((x for x in n.walk() if x.i in f.cfg.where()), key=lambda x: x.i, default=None) for n in cmps]
+        okhm = exits and all(x is not None and f.cfg.node_dominates(first, x) for x in firsts)
     ctx.ob("R6.default", "no-stats-match|%s:%s" % (RS, f.name), P.where(f.body),
-           "without min/max statistics the function returns before the operator table", okhm)
+           "without min/max statistics the function returns before the bounds are compared", okhm)
 
     g = P.fn("carquet_reader_filter_row_groups", RS)
-    cz = Canon(g)
-    # error -> match
-    err_ok = False
-    for n in g.body.walk():
-        if n.k == "IfStmt":
-            kids = [x for x in n.c if x is not None]
-            t = cz(kids[0])
-            if t[0] == "bin" and t[1] == "!=" and ("int", 0) in (t[2], t[3]):
-                err_ok = any(is_assign(a) and "might_match" in src(a.c[0]) and a.c[1].cv == 1 for a in kids[1].walk())
-    ctx.ob("R6.default", "filter-error-match|%s:%s" % (RS, g.name), P.where(g.body),
-           "filter_row_groups treats a failing row_group_matches as might-match", err_ok)
-    loops = [n for n in g.body.walk() if n.k == "ForStmt"]
-    okl = False
-    if loops:
-        cond = cz(loops[0].c[2])
-        txt = show(cond)
-        okl = "max_indices" in src(loops[0].c[2]) and "<" in txt and loops[0].c[3].strip().op == "++"
-        app = [a for a in loops[0].walk() if is_assign(a) and a.c[0].strip().k == "ArraySubscriptExpr"]
-        okl = okl and len(app) == 1 and app[0].c[1].strip_casts().k == "DeclRefExpr" and \
-            app[0].c[0].strip().c[1].strip().k == "UnaryOperator"
-    ctx.ob("R6.default", "filter-ascending-capped|%s:%s" % (RS, g.name), P.where(g.body),
-           "filter_row_groups appends the loop index in ascending order while num_matching < max_indices", okl)
+    # filter_row_groups by abstract execution over small scenarios: N row groups, each reported as
+    # match / no match / error by the (hooked) per-group predicate; the result must be the first
+    # max_indices indices, ascending, of the groups that are not a definite non-match
+    import itertools
+    gpn = [p_["n"] for p_ in g.params]
+    bad = None
+    scen = 0
+    try:
+        for N in range(0, 4):
+            for outcome in itertools.product("MNE", repeat=N):
+                for cap in (1, 2, N + 1):
+                    scen += 1
+                    args = []
+                    for p_ in g.params:
+                        if p_["n"] == "max_indices":
+                            args.append(cap)
+                        elif p_["n"] == "matching_indices":
+                            args.append(sem.Ptr("out", 0, 4))
+                        elif "*" in p_["t"]:
+                            args.append(sem.Ptr("p_" + p_["n"], 0, 1))
+                        else:
+                            args.append(0)
+
+                    def matches(ev, a, it, outcome=outcome):
+                        i = a[1]
+                        if not isinstance(i, int) or i < 0 or i >= len(outcome):
+                            raise sem.Stop("row_group_matches called for group %s of %d" % (i, len(outcome)))
+                        ev.append(i)
+                        o = outcome[i]
+                        sem.set_out(it, a[-1], 1 if o == "M" else 0)      # an erroring callee leaves garbage: worst case false
+                        return 0 if o != "E" else 9
+                    ret, ev, heap = sem.run(P, g, args, heap0={}, budget=400000, hooks={
+                        "carquet_reader_num_row_groups": lambda ev, a, it, N=N: N,
+                        "carquet_reader_row_group_matches": matches})
+                    want = [i for i, o in enumerate(outcome) if o != "N"][:cap]
+                    got = [heap.get(("out", 4 * k)) for k in range(len(want))]
+                    extra = heap.get(("out", 4 * len(want)))
+                    if (got != want or ret != len(want) or extra is not None) and bad is None:
+                        bad = "groups %s, max_indices %d: returns %s with indices %s, expected %d with %s" % (
+                            "".join(outcome) or "-", cap, ret, got + ([extra] if extra is not None else []), len(want), want)
+        ctx.ob("R6.default", "filter-semantics|%s:%s" % (RS, g.name), P.where(g.body),
+               "filter_row_groups returns, ascending and capped by max_indices, exactly the groups whose predicate "
+               "reported a match or failed (%d scenarios: up to 3 groups x match/no match/error x 3 capacities)" % scen,
+               bad is None, bad or "")
+    except sem.Inconclusive as ex:
+        ctx.inconclusive("R6.default", "filter-semantics|%s:%s" % (RS, g.name), P.where(g.body), "abstract execution", str(ex))
 
     # ---- interval tables: compare / range_overlaps / page_might_match
     _interval(ctx, P.fn("carquet_statistics_compare", MS), MS, "result",
@@ -332,11 +361,9 @@ def run(ctx):
                         if ln in src(cnd) and any(x.k == "UnaryExprOrTypeTraitExpr" or (x.cv is not None and cap is not None and x.cv == cap)
                                                   for x in cnd.walk()) and ">" in src(cnd):
                             first = min((x for x in n.walk() if x.i in fn.cfg.where()), key=lambda x: x.i)
-                            then = [x for x in n.c if x is not None][1]
-                            rejects = any(x.k in ("ContinueStmt", "ReturnStmt", "BreakStmt", "GotoStmt") for x in then.walk())
                             if fn.cfg.node_dominates(first, c):
                                 okb = True
-                                if not rejects:
+                                if _too_long_reaches(fn, cnd, ln, c):
                                     clamped = True
                 ctx.ob("R6.bounded", key, P.where(c),
                        "memcpy of `%s` bytes into the %s-byte %s array is dominated by a size test" % (ln, cap, mem[0].name), okb)
@@ -418,6 +445,70 @@ def _array_len(P, mem):
     return None
 
 
+def _too_long_reaches(fn, cond, ln, copy):
+    """The size test `len > capacity` (in whatever spelling): can the copy still be reached, within the
+    same loop iteration, along the edge on which the value is too long? Then the value is clamped or
+    copied anyway instead of being rejected."""
+    from ..rules.flow import find_path_avoiding
+    cfg = fn.cfg
+    leaf = None
+    for x in cond.walk():
+        if x.k == "BinaryOperator" and x.op in (">", ">=", "<", "<=") and ln in src(x):
+            leaf = x
+            break
+    if leaf is None:
+        return False
+    left_is_len = ln in src(leaf.c[0])
+    too_long_on_true = (leaf.op in (">", ">=")) == left_is_len
+    blk = None
+    for B in cfg.blocks.values():
+        if B.cond is not None and (B.cond is leaf or B.cond.i == leaf.i or any(y.i == leaf.i for y in B.cond.walk())):
+            if len([s_ for s_ in B.succs if s_ is not None]) == 2:
+                blk = B
+    if blk is None:
+        return False
+    start = blk.succs[0] if too_long_on_true else blk.succs[1]
+    stop_ids = set()
+    for a in copy.ancestors():
+        if a.k in ("ForStmt", "WhileStmt", "DoStmt"):
+            for part in (a.c[:-1]):
+                if part is not None:
+                    stop_ids |= set(y.i for y in part.walk())
+            break
+    p = find_path_avoiding(cfg, lambda e: e.i in stop_ids, lambda e: e is copy, None, (start, 0))
+    return p is not None
+
+
+def _comparator_is_typed(P, g):
+    """A comparator taking the physical type is `typed` when, executed abstractly for each numeric type
+    with values of that type's width, no path falls back to a byte-wise memcmp (however the dispatch on
+    the type is written)."""
+    from ..rules import sem
+    tpar = [i for i, p_ in enumerate(g.params) if "physical_type" in p_["t"]]
+    if not tpar:
+        return False
+    types = P.enum("carquet_physical_type")
+    for tname, width in (("CARQUET_PHYSICAL_INT32", 4), ("CARQUET_PHYSICAL_INT64", 8),
+                         ("CARQUET_PHYSICAL_FLOAT", 4), ("CARQUET_PHYSICAL_DOUBLE", 8)):
+        args = []
+        for i, p_ in enumerate(g.params):
+            if i == tpar[0]:
+                args.append(types[tname])
+            elif "*" in p_["t"]:
+                args.append(sem.Ptr("v%d" % i, 0, 1))
+            else:
+                args.append(width)
+        try:
+            paths = sem.run(P, g, args, single=False, max_forks=256,
+                            hooks={"memcmp": lambda ev, a, it: ev.append("memcmp") or sem.U,
+                                   "compare_bytes": lambda ev, a, it: ev.append("memcmp") or sem.U})
+        except sem.Inconclusive:
+            return False
+        if any("memcmp" in ev for ret, ev, heap in paths):
+            return False
+    return True
+
+
 def _interval(ctx, fn, file_, outname, blocks):
     """Interval tables: block k computes cmp = comparator(A_k, B_k) per type and clears/sets the
     output; the store is allowed only when cmp has the sign proving disjointness."""
@@ -469,7 +560,7 @@ def _interval(ctx, fn, file_, outname, blocks):
                 in_switch = any(a.k == "SwitchStmt" for a in call.ancestors())
                 if not typed and not in_switch:
                     cal = [g for g in P.by_name.get(call.callee or "", []) if P.rel(g.file) == file_]
-                    typed = bool(cal) and any("type" in src(sw.c[-2]) for sw in find_switches(cal[0]))
+                    typed = bool(cal) and _comparator_is_typed(P, cal[0])
                 if not in_switch:
                     ctx.ob("R5.siblings", "typed-compare|%s:%s|cmp(%s,%s)" % (file_, fn.name, a_name, b_name),
                            P.where(call), "%s orders values through a comparator directed by the physical type "
